@@ -2,7 +2,8 @@
    [emit extra d urrs rs] is the emission loop of all three carriers: Session Modification Response
    (emit 0 true), Session Deletion Response (emit USAR_TRIG_TERMR true), Session Report Request (emit 0 false). *)
 From Coq Require Import String List NArith ZArith Bool.
-From GoUpf Require Import Bytes FlagsGen ConstsGen HandlerGen Pfcp PfcpBase PfcpSess PfcpCat PfcpUsage.
+From GoUpf Require Import Bytes FlagsGen ConstsGen HandlerGen Pfcp PfcpBase PfcpSess PfcpClose PfcpTable PfcpDelete
+  PfcpStep PfcpProps PfcpCat PfcpUsage PfcpQueue.
 Import ListNotations.
 Local Open Scope N_scope.
 
@@ -42,11 +43,45 @@ Theorem C11_emit_unknown_no_ie : forall extra d urrs rs urrs' ies u,
 Proof. exact emit_unknown_no_ie. Qed.
 Print Assumptions C11_emit_unknown_no_ie.
 
-(* the counters stay uint32 values (so the hypothesis ui_seqn inf < M32 above holds in every reachable state:
-   see C13_step_sess_inv instantiated in PfcpQueue.seq_bounded_reachable) *)
+(* the counters stay uint32 values, so the hypothesis ui_seqn inf < M32 above holds in every reachable state *)
 Theorem C11_emit_bounded : forall extra d rs urrs, seq_bounded urrs -> seq_bounded (fst (emit extra d urrs rs)).
 Proof. exact emit_bounded. Qed.
 Print Assumptions C11_emit_bounded.
+
+Theorem C11_counters_uint32 : forall w lid s u inf,
+  reachable w -> live w lid s -> alookup u (s_urrs s) = Some inf -> ui_seqn inf < M32.
+Proof. exact seq_bounded_reachable. Qed.
+Print Assumptions C11_counters_uint32.
+
+(* the carriers store what they counted: the session kept after a Modification Response / Session Report Request
+   holds fst of the very emission whose snd went out (so (b) chains from message to message) *)
+Theorem C11_modification_carrier : forall w peer seq seid o e s c rs,
+  WInv w -> live w seid s ->
+  run_categories e o mod_order (mkCtx s (w_dp w) []) = Some (c, rs) ->
+  exists w' o3,
+    handle_mod w peer seq seid IeAbsent o e = Ok (w', c_out c ++ o3) /\
+    live w' seid (set_urrs (fst (emit 0 true (s_urrs (c_s c)) rs)) (c_s c)) /\
+    (o3 = [] \/ o3 = [OSend peer (PModRsp seq (s_rid s) CauseAccepted (snd (emit 0 true (s_urrs (c_s c)) rs))) false]).
+Proof. exact handle_mod_emits. Qed.
+Print Assumptions C11_modification_carrier.
+
+Theorem C11_report_carrier : forall w seid s n usars,
+  WInv w -> live w seid s -> nth_error (w_heap w) (s_node s) = Some n -> usars <> [] ->
+  exists w',
+    serve_report w seid (map RUsa usars) =
+      Ok (w', [OSend (n_id n) (PReportUSAR (w_txseq w mod 16777216) (s_rid s) (snd (emit 0 false (s_urrs s) usars))) false]) /\
+    live w' seid (set_urrs (fst (emit 0 false (s_urrs s) usars)) s) /\
+    (forall lid' s', lid' <> seid -> (live w' lid' s' <-> live w lid' s')).
+Proof. exact serve_report_route. Qed.
+Print Assumptions C11_report_carrier.
+
+Theorem C11_deletion_carrier : forall w peer seq seid e s w1 o1 s1 rs,
+  live w seid s -> delete_sess e w (s_node s) seid = Ok (w1, Some (o1, s1, rs)) ->
+  exists w' o3,
+    handle_del w peer seq seid e = Ok (w', o1 ++ o3) /\
+    (o3 = [] \/ o3 = [OSend peer (PDelRsp seq (s_rid s) CauseAccepted (snd (emit USAR_TRIG_TERMR true (s_urrs s1) rs))) false]).
+Proof. exact handle_del_emits. Qed.
+Print Assumptions C11_deletion_carrier.
 
 (* (d) Create URR (re)starts the counter at 0, not removed *)
 Theorem C11_create_urr_restarts : forall e o c i,
@@ -74,6 +109,19 @@ Theorem C11_close_keeps_counters : forall e c c' rs,
     exists inf, alookup u (s_urrs (c_s c)) = Some inf /\ ui_seqn inf' = ui_seqn inf.
 Proof. exact sess_close_kept. Qed.
 Print Assumptions C11_close_keeps_counters.
+
+(* FINDING ((e) cannot be strengthened to "only emission changes a counter"): a Create URR naming a URR id the
+   session already has resets the bookkeeping although the driver rejects the rule: UR-SEQN 0 is sent twice for
+   the same, still running, URR *)
+Example C11_create_urr_existing_id_refuted :
+  match run (init 0 1) recreate_urr_history with
+  | Ok (_, os) =>
+      usar_seqns (nth 2 os []) = [(7, 0)] /\
+      nth 3 os [] = [ODrv DCreate KURR 1 7 false; OSend 0 (PModRsp 3 10 CauseAccepted []) false] /\
+      usar_seqns (nth 4 os []) = [(7, 0)]
+  | Fault _ => False
+  end.
+Proof. exact create_urr_existing_id_refuted. Qed.
 
 (* non-vacuity: URR 7 is queried in a Modification whose driver answer holds two reports, then reports once more
    in a Session Report Request (together with a report for the unknown URR 9): UR-SEQN 0,1 then 2 *)
